@@ -6,7 +6,7 @@ from fractions import Fraction
 import numpy as np
 
 from symx.runner import Family, arr, increasing, run_check
-from checks.rfafam import (WINDOW, shape_configs, symbolic_param_configs, large_configs, inputs, make, effective_a, num, Geometry, windows_of,
+from checks.rfafam import (WINDOW, shape_configs, symbolic_param_configs, large_configs, typed_configs, inputs, make, effective_a, num, Geometry, windows_of,
                            expected_window_series, lin, o_exp, o_exp_xy, o_exp_lin, o_lin_exp_xy)
 
 SHAPES = {"lin_fit": None, "exp_fit": o_exp, "exp_xy_fit": o_exp_xy, "exp_lin_fit": o_exp_lin,
@@ -66,10 +66,10 @@ class Geometry_(Family):
         else:
             cs = shape_configs(tier, WINDOW, sym_x_max_m=4, max_m=6, ns=(2, 3, 4, 6), adaptive_max_m=5)
         # the property fixes adaptive smoothing at its default 1
-        return [c for c in cs + large_configs(tier) if "adaptive_smooth" not in c["p"]] + symbolic_param_configs(tier)
+        return [c for c in cs + large_configs(tier) if "adaptive_smooth" not in c["p"]] + symbolic_param_configs(tier) + typed_configs(WINDOW, n=4)
 
-    def run(self, ctx, inst, strategy, m, n, grid, p):
-        x, y, X, ys = inputs(ctx, m, grid)
+    def run(self, ctx, inst, strategy, m, n, grid, p, typed=None):
+        x, y, X, ys = inputs(ctx, m, grid, typed)
         obj = make(ctx, strategy, x, y, n, p)
         xs, zs = obj.rfa()
         ctx.note("zs", zs)
